@@ -45,7 +45,7 @@ def run(ck, rng, tier):
         X, lab = gen(rng, ncl, m, per, sep)
         Xt, labt = gen(rng, ncl, m, [3] * ncl, sep)
         kind = rng.choice(("plain", "affine", "rowperm"))
-        if c in (2, 3, 4):
+        if c in (2, 3, 4, 5, 6):
             kind = "affine"
         if c == 4:
             Xt[0, 0] = 0.0     # re-coded below to exactly 1e8, next to the missing-value code
@@ -63,7 +63,11 @@ def run(ck, rng, tier):
                 A, cvec = A * 1e6, cvec * 1e6
             elif c == 4:    # x -> 1e6 x + 1e8: an exact zero becomes exactly 1e8
                 A, cvec = np.eye(m) * 1e6, np.full(m, 1e8)
-            ck.count("affine re-coding: units / offset", 1 if c in (2, 3, 4) else 0)
+            elif c == 5:    # features beyond the range of single precision (units of 1e39)
+                A, cvec = A * 1e39, cvec * 1e39
+            elif c == 6:    # a diagonal re-coding of condition 100 in units of 4e2 .. 4e4
+                A, cvec = np.diag(np.logspace(math.log10(4e2), math.log10(4e4), m)), cvec * 1e3
+            ck.count("affine re-coding: units / offset", 1 if c in (2, 3, 4, 5, 6) else 0)
             lines.append("lda %s %s %s" % (vf.fmt_mat((X @ A.T + cvec).tolist(), m), vf.fmt_mat(y, 1), vf.fmt_mat((Xt @ A.T + cvec).tolist(), m)))
             meta.append(("affine", A))
         elif kind == "rowperm":
